@@ -1,7 +1,10 @@
 package main
 
 import (
+	"context"
 	"encoding/json"
+	"fmt"
+	"go/types"
 	"os"
 	"os/exec"
 	"path/filepath"
@@ -93,9 +96,242 @@ func itoa(n int) string {
 	return s
 }
 
-// tryReplay: per-function adapters turn a model into a concrete test run against the real code.
+// tryReplay turns a failed no-panic obligation of a function over scalars and byte slices into a
+// concrete run of the real code.  The failed query usually comes back "unknown" (quantified
+// background axioms), so a model is searched in a relaxation of it: every quantified hypothesis is
+// dropped and the index term ix(a,b) is replaced by a+b.  A model of the relaxation may be spurious;
+// that is harmless because only a run of the real code that actually panics counts as a replay.
 func tryReplay(g *G, rf *ReplayFile, o *Obl) bool {
+	if o.Kind != "safety" || o.File == "" {
+		return false
+	}
+	fn := g.fnByKey[o.Func]
+	if fn == nil || fn.Signature.Recv() != nil || fn.Pkg == nil || len(fn.FreeVars) > 0 {
+		rf.Note = "replay adapter covers package-level functions over integers, booleans, strings and byte slices; " + o.Func + " is not one"
+		return false
+	}
+	type par struct {
+		name string
+		kind string // int | bool | bytes | string
+		gt   string
+	}
+	var ps []par
+	for _, p := range fn.Params {
+		switch t := p.Type().Underlying().(type) {
+		case *types.Basic:
+			switch {
+			case t.Info()&types.IsInteger != 0:
+				ps = append(ps, par{p.Name(), "int", p.Type().String()})
+			case t.Info()&types.IsBoolean != 0:
+				ps = append(ps, par{p.Name(), "bool", p.Type().String()})
+			case t.Info()&types.IsString != 0:
+				ps = append(ps, par{p.Name(), "string", p.Type().String()})
+			default:
+				rf.Note = "replay adapter: unsupported parameter type " + p.Type().String()
+				return false
+			}
+		case *types.Slice:
+			if !isByteSlice(p.Type()) {
+				rf.Note = "replay adapter: unsupported parameter type " + p.Type().String()
+				return false
+			}
+			ps = append(ps, par{p.Name(), "bytes", "[]byte"})
+		default:
+			rf.Note = "replay adapter: unsupported parameter type " + p.Type().String()
+			return false
+		}
+	}
+	raw, err := os.ReadFile(o.File)
+	if err != nil {
+		return false
+	}
+	const nBytes = 96
+	var sb strings.Builder
+	for _, l := range strings.Split(string(raw), "\n") {
+		if strings.HasPrefix(l, "(assert ") && strings.Contains(l, "(forall ") && !strings.HasPrefix(l, "(assert (not ") {
+			continue
+		}
+		if strings.HasPrefix(l, "(get-model)") || strings.HasPrefix(l, "(check-sat)") {
+			continue
+		}
+		sb.WriteString(strings.ReplaceAll(l, "(ix ", "(+ "))
+		sb.WriteByte('\n')
+	}
+	sb.WriteString("(check-sat)\n")
+	hasBytes := strings.Contains(sb.String(), "(declare-const A_byte!0 ")
+	var terms []string
+	for _, p := range ps {
+		n := "in_" + san(p.name)
+		switch p.kind {
+		case "int", "bool":
+			terms = append(terms, n)
+		case "string":
+			terms = append(terms, "(strlen "+n+")")
+		case "bytes":
+			terms = append(terms, "(s-len "+n+")", "(s-cap "+n+")")
+			for i := 0; i < nBytes; i++ {
+				if hasBytes {
+					terms = append(terms, fmt.Sprintf("(select (select A_byte!0 (s-arr %s)) (+ (s-off %s) %d))", n, n, i))
+				} else {
+					terms = append(terms, "0") // the query never looks at the bytes
+				}
+			}
+		}
+	}
+	if len(terms) == 0 {
+		return false
+	}
+	for _, t := range terms {
+		sb.WriteString("(get-value (" + t + "))\n")
+	}
+	qf := strings.TrimSuffix(o.File, ".smt2") + "_replaysearch.smt2"
+	if os.WriteFile(qf, []byte(sb.String()), 0644) != nil {
+		return false
+	}
+	r := runSolver(context.Background(), solvers[0], qf, 10)
+	if r.Status != "sat" {
+		r = runSolver(context.Background(), solvers[1], qf, 10)
+	}
+	if r.Status != "sat" {
+		rf.Note = "replay adapter: no model found for the quantifier-free relaxation of the failed query (" + r.Status + ")"
+		return false
+	}
+	// parse the "((term value))" answers in order (an answer may span several lines)
+	var vals []string
+	txt := r.Raw
+	if k := strings.Index(txt, "sat"); k >= 0 {
+		txt = txt[k+3:]
+	}
+	depth, start := 0, -1
+	for i := 0; i < len(txt); i++ {
+		switch txt[i] {
+		case '(':
+			if depth == 0 {
+				start = i
+			}
+			depth++
+		case ')':
+			depth--
+			if depth == 0 && start >= 0 {
+				l := strings.Join(strings.Fields(txt[start:i+1]), " ")
+				start = -1
+				if !strings.HasPrefix(l, "((") {
+					continue
+				}
+				l = strings.TrimSuffix(strings.TrimPrefix(l, "(("), "))")
+				v := l
+				if strings.HasSuffix(l, ")") {
+					d := 0
+					for j := len(l) - 1; j >= 0; j-- {
+						if l[j] == ')' {
+							d++
+						} else if l[j] == '(' {
+							d--
+							if d == 0 {
+								v = l[j:]
+								break
+							}
+						}
+					}
+				} else if k := strings.LastIndexByte(l, ' '); k >= 0 {
+					v = l[k+1:]
+				}
+				v = strings.ReplaceAll(strings.ReplaceAll(strings.ReplaceAll(v, "(- ", "-"), ")", ""), "(", "")
+				vals = append(vals, strings.TrimSpace(v))
+			}
+		}
+	}
+	if len(vals) != len(terms) {
+		rf.Note = "replay adapter: could not read the model values"
+		return false
+	}
+	rf.Inputs = map[string]string{}
+	var body strings.Builder
+	var args []string
+	vi := 0
+	// second pass (simple and explicit): build declarations
+	vi = 0
+	body.Reset()
+	for _, p := range ps {
+		switch p.kind {
+		case "int":
+			rf.Inputs[p.name] = vals[vi]
+			if strings.HasPrefix(vals[vi], "-") {
+				fmt.Fprintf(&body, "\tw_%s := int64(%s)\n\tp_%s := %s(w_%s)\n", p.name, vals[vi], p.name, p.gt, p.name)
+			} else {
+				fmt.Fprintf(&body, "\tw_%s := uint64(%s)\n\tp_%s := %s(w_%s)\n", p.name, vals[vi], p.name, p.gt, p.name)
+			}
+			vi++
+		case "bool":
+			rf.Inputs[p.name] = vals[vi]
+			fmt.Fprintf(&body, "\tp_%s := %s\n", p.name, vals[vi])
+			vi++
+		case "string":
+			n := atoiSafe(vals[vi])
+			if n < 0 || n > 1<<24 {
+				rf.Note = "replay adapter: model wants a string of " + vals[vi] + " bytes; not materialised"
+				return false
+			}
+			rf.Inputs["len("+p.name+")"] = vals[vi]
+			fmt.Fprintf(&body, "\tp_%s := %s(make([]byte, %d))\n", p.name, p.gt, n)
+			vi++
+		case "bytes":
+			ln, cp := atoiSafe(vals[vi]), atoiSafe(vals[vi+1])
+			if ln < 0 || cp < ln || cp > 1<<26 {
+				rf.Note = "replay adapter: model wants a slice of length " + vals[vi] + " and capacity " + vals[vi+1] + "; not materialised"
+				return false
+			}
+			rf.Inputs["len("+p.name+")"], rf.Inputs["cap("+p.name+")"] = vals[vi], vals[vi+1]
+			fmt.Fprintf(&body, "\tp_%s := make([]byte, %d, %d)\n", p.name, ln, cp)
+			var bs []string
+			for i := 0; i < nBytes && i < ln; i++ {
+				b := atoiSafe(vals[vi+2+i])
+				if b < 0 || b > 255 {
+					b = 0
+				}
+				if b != 0 {
+					fmt.Fprintf(&body, "\tp_%s[%d] = %d\n", p.name, i, b)
+				}
+				bs = append(bs, fmt.Sprint(b))
+			}
+			rf.Inputs[p.name+"[:"+fmt.Sprint(len(bs))+"]"] = strings.Join(bs, " ")
+			vi += 2 + nBytes
+		}
+		args = append(args, "p_"+p.name)
+	}
+	pkgPath := fn.Pkg.Pkg.Path()
+	pkgDir := strings.TrimPrefix(strings.TrimPrefix(pkgPath, g.modPath), "/")
+	src := "package " + fn.Pkg.Pkg.Name() + "\n\nimport \"testing\"\n\n// generated by govc from the model of the failed obligation\n// " + o.Name + "\nfunc TestGovcReplay(t *testing.T) {\n" +
+		body.String() + "\t" + fn.Name() + "(" + strings.Join(args, ", ") + ")\n}\n"
+	out, failed := runReplayTest(pkgDir, src)
+	rf.ReplayPkg, rf.ReplayTest, rf.ReplayOut = pkgDir, src, out
+	if failed && strings.Contains(out, "panic") {
+		rf.Note = "the model of the failed obligation makes the real function panic (see replay_output); rerun with ./check " + rf.Property + " --replay <this file>"
+		return true
+	}
+	rf.Note = "the model found for the relaxed query does not make the real function panic (spurious model or a non-panic obligation)"
 	return false
+}
+
+func atoiSafe(s string) int {
+	n, neg := 0, false
+	for i, c := range s {
+		if i == 0 && c == '-' {
+			neg = true
+			continue
+		}
+		if c < '0' || c > '9' {
+			return -1
+		}
+		n = n*10 + int(c-'0')
+		if n > 1<<40 {
+			return 1 << 40
+		}
+	}
+	if neg {
+		return -n
+	}
+	return n
 }
 
 // runReplayTest injects an in-package test with go test -overlay (nothing is written into the repo)
